@@ -48,3 +48,7 @@ def static_facts(repo):
     out = subprocess.run(['grep', '-rnE', r'\bm_(next|prev)\s*=[^=]', os.path.join(repo, 'src'), '--include=*.cpp', '--include=*.h'], stdout=subprocess.PIPE, text=True).stdout
     bad = [l for l in out.splitlines() if not re.search(r'/(ListManager\.h|chunk\.cpp|chunk\.h):', l)]
     return [('Chunk::m_next / m_prev are assigned only in ListManager.h, chunk.cpp, chunk.h', not bad, '; '.join(bad)[:300])]
+
+sys.path.insert(0, os.path.join(os.path.dirname(os.path.abspath(__file__)), '..', '..', 'tools'))
+import replay_lib  # noqa: E402
+REPLAY = replay_lib.make_replay(replay_lib.scenario_gating_default, replay_lib.scenario_line_endings)
